@@ -102,7 +102,7 @@ static Params generic_base(const std::vector<std::string>& names, int seed) {
 
 struct Ctx {
   const System* sys; Params base; std::vector<LD> dflt; std::vector<std::vector<LD>> alpha; std::vector<Pt> pts;
-  std::vector<Assignment> as; int level_end[4];
+  std::vector<Assignment> as; int level_end[4]; std::vector<std::string> namesB;
 };
 
 static std::string fmt_params(const Params& P) {
@@ -116,6 +116,64 @@ static std::string fmt_expect_call(const Expect& e) {
   return s + ")";
 }
 
+// ---------------------------------------------------------------------------------------------
+// C20: specialising parameters maps one catalogue solution onto another (differential, two handles of one process)
+struct EvalMap { const char* fnA; const char* sigA; const char* fnB; const char* sigB; int argB[4]; };
+struct Reduction { std::string id, A, B; std::vector<std::pair<std::string, LD>> fixA; std::vector<EvalMap> map; };
+static std::vector<Reduction> reductions() {
+  std::vector<Reduction> R;
+  auto zero = [](std::initializer_list<const char*> n) { std::vector<std::pair<std::string, LD>> v; for (auto x : n) v.push_back({x, 0.0L}); return v; };
+  const int I0[4] = {0, 1, 2, 3};
+  auto M = [&](const char* fa, const char* sa, const char* fb, const char* sb) { EvalMap m{fa, sa, fb, sb, {0, 1, 2, 3}}; (void)I0; return m; };
+  // 3D -> 2D (all z amplitudes and the w field zero): result must not depend on z
+  for (auto pr : {std::make_pair("euler_3d", "euler_2d"), std::make_pair("navierstokes_3d_compressible", "navierstokes_2d_compressible")}) {
+    Reduction r; r.id = std::string(pr.first) + "->" + pr.second; r.A = pr.first; r.B = pr.second;
+    r.fixA = zero({"rho_z", "u_z", "v_z", "p_z", "w_0", "w_x", "w_y", "w_z"});
+    for (auto f : {"source_rho", "source_rho_u", "source_rho_v", "source_rho_e", "exact_rho", "exact_u", "exact_v", "exact_p"}) r.map.push_back(M(f, "SSS", f, "SS"));
+    R.push_back(r);
+  }
+  // Navier-Stokes -> Euler (mu = k = 0)
+  for (int d = 2; d <= 3; d++) {
+    Reduction r; r.A = d == 2 ? "navierstokes_2d_compressible" : "navierstokes_3d_compressible"; r.B = d == 2 ? "euler_2d" : "euler_3d"; r.id = r.A + "->" + r.B;
+    r.fixA = zero({"mu", "k"}); const char* sg = d == 2 ? "SS" : "SSS";
+    for (auto f : {"source_rho", "source_rho_u", "source_rho_v", "source_rho_e"}) r.map.push_back(M(f, sg, f, sg));
+    if (d == 3) r.map.push_back(M("source_rho_w", sg, "source_rho_w", sg));
+    R.push_back(r);
+  }
+  // transient Euler -> steady Euler (temporal amplitudes zero): result must not depend on t
+  { Reduction r; r.A = "euler_transient_1d"; r.B = "euler_1d"; r.id = r.A + "->" + r.B; r.fixA = zero({"rho_t", "u_t", "p_t"});
+    for (auto f : {"source_rho", "source_rho_u", "source_rho_e", "exact_rho", "exact_u", "exact_p"}) r.map.push_back(M(f, "SS", f, "S")); R.push_back(r); }
+  { Reduction r; r.A = "euler_transient_2d"; r.B = "euler_2d"; r.id = r.A + "->" + r.B; r.fixA = zero({"rho_t", "u_t", "v_t", "p_t"});
+    r.map = {M("source_rho", "SSS", "source_rho", "SS"), M("source_u", "SSS", "source_rho_u", "SS"), M("source_v", "SSS", "source_rho_v", "SS"), M("source_e", "SSS", "source_rho_e", "SS"),
+             M("exact_rho", "SSS", "exact_rho", "SS"), M("exact_u", "SSS", "exact_u", "SS"), M("exact_v", "SSS", "exact_v", "SS"), M("exact_p", "SSS", "exact_p", "SS")}; R.push_back(r); }
+  { Reduction r; r.A = "euler_transient_3d"; r.B = "euler_3d"; r.id = r.A + "->" + r.B; r.fixA = zero({"rho_t", "u_t", "v_t", "w_t", "p_t"});
+    r.map = {M("source_rho", "SSSS", "source_rho", "SSS"), M("source_u", "SSSS", "source_rho_u", "SSS"), M("source_v", "SSSS", "source_rho_v", "SSS"), M("source_w", "SSSS", "source_rho_w", "SSS"),
+             M("source_e", "SSSS", "source_rho_e", "SSS"), M("exact_rho", "SSSS", "exact_rho", "SSS"), M("exact_u", "SSSS", "exact_u", "SSS"), M("exact_w", "SSSS", "exact_w", "SSS"), M("exact_p", "SSSS", "exact_p", "SSS")}; R.push_back(r); }
+  // heat: unsteady -> steady (A_t = B_t = C_t = D_t = 0), var -> const (k_1 = k_2 = cp_1 = cp_2 = 0)
+  for (int d = 1; d <= 3; d++) {
+    std::string D = std::to_string(d), sst(d, 'S'), sun(d + 1, 'S');
+    static std::vector<std::string> keep; keep.push_back(sst); keep.push_back(sun);
+    for (const char* kind : {"const", "var"}) {
+      Reduction r; r.A = "heateq_" + D + "d_unsteady_" + kind; r.B = "heateq_" + D + "d_steady_" + kind; r.id = r.A + "->" + r.B;
+      r.fixA = zero({"A_t", "D_t"}); if (d >= 2) r.fixA.push_back({"B_t", 0.0L}); if (d >= 3) r.fixA.push_back({"C_t", 0.0L});
+      EvalMap m{"source_t", strdup(sun.c_str()), "source_t", strdup(sst.c_str()), {0, 1, 2, 3}}; r.map.push_back(m); R.push_back(r);
+    }
+    for (const char* st : {"steady", "unsteady"}) {
+      Reduction r; r.A = "heateq_" + D + "d_" + st + "_var"; r.B = "heateq_" + D + "d_" + st + "_const"; r.id = r.A + "->" + r.B;
+      bool un = std::string(st) == "unsteady"; r.fixA = zero({"k_1", "k_2"}); if (un) { r.fixA.push_back({"cp_1", 0.0L}); r.fixA.push_back({"cp_2", 0.0L}); }
+      const char* sg = strdup((un ? sun : sst).c_str()); EvalMap m{"source_t", sg, "source_t", sg, {0, 1, 2, 3}}; r.map.push_back(m); R.push_back(r);
+    }
+  }
+  return R;
+}
+static const Reduction* g_red = 0;
+static void set_two_handles(const Params& P, const std::vector<std::string>& namesB) {
+  masa_select_mms<LD>("ra"); masa_select_mms<double>("ra");
+  for (auto& kv : P.m) { masa_set_param<LD>(kv.first, kv.second); masa_set_param<double>(kv.first, (double)kv.second); }
+  masa_select_mms<LD>("rb"); masa_select_mms<double>("rb");
+  for (auto& n : namesB) { auto it = P.m.find(n); if (it == P.m.end()) continue; masa_set_param<LD>(n, it->second); masa_set_param<double>(n, (double)it->second); }
+}
+
 struct Runner {
   Ctx& C; FILE* out; std::map<std::string, Stat> stats; std::map<std::string, long> known; long states = 0, transitions = 0, comparisons = 0, inadmissible = 0, done = 0;
   int samples_left; std::map<std::string, int> viol_budget;
@@ -124,7 +182,7 @@ struct Runner {
   template <class S> bool check_one(const Expect& e, S lib, double u, const char* scal, const Params& P, int nd, Q& errq) {
     std::string key = C.sys->name + "|" + e.prop + "|" + e.fn + "/" + e.sig + "|" + scal;
     Stat& st = stats[key]; st.n++; comparisons++;
-    bool bad = false; double ratio = 0; const char* why = "";
+    bool bad = false; double ratio = 0, ratio_alt = -1; const char* why = "";
     Q lq = (Q)lib; errq = 0;
     if (e.special) { if (!(lib == lib) || std::isinf((LD)lib)) { bad = true; why = "non-finite at special point"; } }
     else if (e.mode == 1) { if (!(lq == e.ref.v)) { bad = true; why = "sentinel value expected"; } }
@@ -134,14 +192,14 @@ struct Runner {
       else {
         errq = qabs(lq - e.ref.v); Q sc = (Q)u * e.ref.s;
         ratio = (sc > 0) ? (double)(errq / sc) : (errq == 0 ? 0.0 : 1e300);
+        if (!e.alt_id.empty()) {
+          Q ea = qabs(lq - e.alt.v); Q sa = (Q)u * (e.alt.s > e.ref.s ? e.alt.s : e.ref.s);
+          ratio_alt = (sa > 0) ? (double)(ea / sa) : (ea == 0 ? 0.0 : 1e300);
+        }
         if (ratio > O.K) {
           bad = true; why = "differs from reference";
-          if (!e.alt_id.empty()) {
-            Q ea = qabs(lq - e.alt.v); Q sa = (Q)u * (e.alt.s > e.ref.s ? e.alt.s : e.ref.s);
-            double ra = (sa > 0) ? (double)(ea / sa) : (ea == 0 ? 0.0 : 1e300);
-            if (ra <= O.K) { known[e.alt_id + "|" + C.sys->name + "|" + e.fn + "/" + e.sig + "|" + scal]++; st.nknown++; bad = false; ratio = ra; errq = ea; }
-          }
-        }
+          if (ratio_alt >= 0 && ratio_alt <= O.K) { known[e.alt_id + "|" + C.sys->name + "|" + e.fn + "/" + e.sig + "|" + scal]++; st.nknown++; bad = false; ratio = ratio_alt; }
+        } else if (ratio_alt >= 0 && ratio_alt < ratio) ratio = ratio_alt;  // discrepancy of a listed signature smaller than K here: roundoff is measured against the nearer model
         if (!bad && ratio > st.maxratio) st.maxratio = ratio;
       }
     }
@@ -150,10 +208,10 @@ struct Runner {
       int& b = viol_budget[key + "#" + std::to_string(nd)];
       if (b < 3) {
         b++;
-        fprintf(out, "{\"k\":\"viol\",\"prop\":\"%s\",\"system\":\"%s\",\"fn\":\"%s\",\"sig\":\"%s\",\"scalar\":\"%s\",\"ndev\":%d,\"why\":\"%s\",\"call\":\"%s\",\"args\":[\"%s\",\"%s\",\"%s\",\"%s\"],\"idx\":%d,\"cb\":%d,\"lib\":\"%s\",\"ref\":\"%s\",\"S\":\"%s\",\"ratio\":%.6g,\"K\":%.6g,\"mode\":%d,\"alt_id\":\"%s\",\"params\":%s}\n",
+        fprintf(out, "{\"k\":\"viol\",\"prop\":\"%s\",\"system\":\"%s\",\"fn\":\"%s\",\"sig\":\"%s\",\"scalar\":\"%s\",\"ndev\":%d,\"why\":\"%s\",\"call\":\"%s\",\"args\":[\"%s\",\"%s\",\"%s\",\"%s\"],\"idx\":%d,\"cb\":%d,\"lib\":\"%s\",\"ref\":\"%s\",\"S\":\"%s\",\"ratio\":%.6g,\"ratio_alt\":%.6g,\"K\":%.6g,\"mode\":%d,\"alt_id\":\"%s\",\"params\":%s}\n",
                 e.prop.c_str(), C.sys->name.c_str(), e.fn.c_str(), e.sig.c_str(), scal, nd, why, jesc(fmt_expect_call(e)).c_str(),
                 ld2s(e.a[0]).c_str(), ld2s(e.a[1]).c_str(), ld2s(e.a[2]).c_str(), ld2s(e.a[3]).c_str(), e.idx, e.cb,
-                ld2s((LD)lib).c_str(), q2s(e.ref.v).c_str(), q2s(e.ref.s, 8).c_str(), ratio, O.K, e.mode, e.alt_id.c_str(), fmt_params(P).c_str());
+                ld2s((LD)lib).c_str(), q2s(e.ref.v).c_str(), q2s(e.ref.s, 8).c_str(), ratio, ratio_alt, O.K, e.mode, e.alt_id.c_str(), fmt_params(P).c_str());
       }
     }
     return !bad;
@@ -181,6 +239,29 @@ struct Runner {
     }
   }
 
+  // C20: evaluate solution A (handle ra) and solution B (handle rb) alternately; |A - B| <= K u S with S from A's reference
+  void run_reduction(const Params& P, std::vector<std::vector<Expect>>& ex, int nd) {
+    set_two_handles(P, C.namesB);
+    for (size_t i = 0; i < C.pts.size(); i++) {
+      if (C.pts[i].special) continue;
+      states += 2;
+      for (auto& m : g_red->map) {
+        const Expect* ea = 0; for (auto& e : ex[i]) if (e.fn == m.fnA && e.sig == m.sigA && e.cb < 0 && e.mode == 0) { ea = &e; break; }
+        if (!ea) { fprintf(out, "{\"k\":\"uncovered\",\"system\":\"%s\",\"fn\":\"%s\",\"sig\":\"%s\"}\n", g_red->id.c_str(), m.fnA, m.sigA); continue; }
+        const ApiEntry *A = api_find(m.fnA, m.sigA), *B = api_find(m.fnB, m.sigB);
+        if (!A || !B) continue;
+        ApiArgs aa, ab; for (int k = 0; k < 4; k++) { aa.s[k] = ea->a[k]; ab.s[k] = ea->a[m.argB[k]]; } aa.i = ab.i = 0; aa.fd = ab.fd = 0; aa.fl = ab.fl = 0;
+        masa_select_mms<LD>("ra"); masa_select_mms<double>("ra"); LD al = A->cl(aa); double ad = A->cd(aa);
+        masa_select_mms<LD>("rb"); masa_select_mms<double>("rb"); LD bl = B->cl(ab); double bd = B->cd(ab);
+        transitions += 4;
+        Expect e = *ea; e.prop = "C20"; e.fn = std::string(m.fnA) + "==" + g_red->B + ":" + m.fnB; e.alt_id.clear(); Q dummy;
+        // the two library values must agree; each is also compared with A's reference value to keep the scale honest
+        e.ref = VS((Q)bl, ea->ref.s); check_one<LD>(e, al, U_LD, "ld", P, nd, dummy);
+        e.ref = VS((Q)bd, ea->ref.s); check_one<double>(e, ad, U_D, "d", P, nd, dummy);
+      }
+    }
+  }
+
   // returns false if inadmissible
   bool run_assignment(const Assignment& a) {
     Params P = C.base;
@@ -188,6 +269,7 @@ struct Runner {
     if (C.sys->derive) C.sys->derive(P);
     std::vector<std::vector<Expect>> ex(C.pts.size());
     for (size_t i = 0; i < C.pts.size(); i++) { if (!C.sys->reference(P, C.pts[i], ex[i])) { inadmissible++; return false; } if (C.pts[i].special) for (auto& e : ex[i]) if (e.mode == 0) e.special = true; }
+    if (g_red) { run_reduction(P, ex, a.nd); done++; return true; }
     set_all(P);
     for (size_t i = 0; i < C.pts.size(); i++) {
       states += 2;  // (assignment, point) in two scalar types
@@ -201,7 +283,12 @@ struct Runner {
 
 static void build_ctx(Ctx& C, const System& sys, int tier) {
   C.sys = &sys;
-  capture([&] { masa_init<LD>("e1", sys.name); masa_init<double>("e1", sys.name); });
+  if (g_red) {
+    capture([&] { masa_init<LD>("rb", g_red->B); masa_init<double>("rb", g_red->B); });
+    C.namesB = param_names();
+    capture([&] { masa_init<LD>("ra", g_red->A); masa_init<double>("ra", g_red->A); });
+  } else
+    capture([&] { masa_init<LD>("e1", sys.name); masa_init<double>("e1", sys.name); });
   std::vector<std::string> names = param_names();
   C.dflt.clear();
   for (auto& n : names) C.dflt.push_back((LD)(double)masa_get_param<LD>(n));
@@ -209,11 +296,13 @@ static void build_ctx(Ctx& C, const System& sys, int tier) {
   if (sys.base_from_default)
     for (size_t i = 0; i < names.size(); i++) C.base.m[names[i]] = dyround(C.dflt[i] * (1.0L + 0.07L * (LD)frac((i + 1 + 13 * (O.seed % 4)) * 0.6180339887498949)));
   if (sys.base) sys.base(C.base);
+  if (g_red) for (auto& f : g_red->fixA) { if (!C.base.has(f.first)) { fprintf(stderr, "E1 HARNESS ERROR: reduction %s fixes unknown parameter %s\n", g_red->id.c_str(), f.first.c_str()); exit(2); } C.base.m[f.first] = f.second; }
   if (sys.derive) sys.derive(C.base);
   C.pts = sys.points(tier);
   C.alpha.assign(names.size(), {});
   for (size_t i = 0; i < names.size(); i++) {
     if (std::find(sys.frozen.begin(), sys.frozen.end(), names[i]) != sys.frozen.end()) continue;
+    if (g_red) { bool fixed = false; for (auto& f : g_red->fixA) if (f.first == names[i]) fixed = true; if (fixed) continue; }
     LD b = C.base.m[names[i]];
     std::vector<LD> cand = {C.dflt[i], 0.0L, -b, 2 * b + 0.125L};
     if (sys.alphabet) cand = sys.alphabet(names[i], b, C.dflt[i]);
@@ -237,7 +326,9 @@ static void build_ctx(Ctx& C, const System& sys, int tier) {
   C.level_end[3] = C.as.size();
 }
 
-static int run_system(const System& sys, int tier, FILE* out, double t_end) {
+
+static int run_system(const System& sys0, int tier, FILE* out, double t_end) {
+  System sys = sys0; if (g_red) { sys.name = g_red->id; sys.prop = "C20"; }
   Ctx C; build_ctx(C, sys, tier);
   // base must be admissible: hard harness error otherwise
   { std::vector<Expect> ex; for (auto& p : C.pts) if (!sys.reference(C.base, p, ex)) { fprintf(stderr, "E1 HARNESS ERROR: base assignment inadmissible for %s\n", sys.name.c_str()); return 2; } }
@@ -249,6 +340,7 @@ static int run_system(const System& sys, int tier, FILE* out, double t_end) {
     pid_t pid = fork();
     if (pid == 0) {
       FILE* fo = fopen(f.c_str(), "w"); g_capfile = O.out + ".cap." + std::to_string(w);
+      { int dn = open("/dev/null", O_WRONLY); dup2(dn, 1); close(dn); }
       g_counts.clear();
       Runner R(C, fo, w == 0 ? 6 : 0);
       int stop_level = 99; size_t last = 0; bool timed_out = false;
@@ -330,6 +422,20 @@ int main(int argc, char** argv) {
   int tier = O.tier == "thorough" ? 1 : 0;
   FILE* out = fopen(O.out.c_str(), "w"); if (!out) { perror("out"); return 2; }
   double t_end = now() + O.deadline; int rc = 0;
+  if (O.prop == "C20") {
+    static std::vector<Reduction> reds = reductions();
+    for (auto& r : reds) {
+      if (!O.only.empty() && r.id != O.only) continue;
+      const System* sa = 0; for (auto& s : e1_systems()) if (s.name == r.A) sa = &s;
+      if (!sa) { fprintf(stderr, "E1 HARNESS ERROR: no reference system %s\n", r.A.c_str()); return 2; }
+      fflush(out); g_red = &r;
+      pid_t pid = fork();
+      if (pid == 0) { int rr = run_system(*sa, tier, out, t_end); fflush(out); unlink(g_capfile.c_str()); _exit(rr); }
+      int st; waitpid(pid, &st, 0);
+      if (!WIFEXITED(st) || WEXITSTATUS(st) != 0) { rc = 2; fprintf(out, "{\"k\":\"crash\",\"system\":\"%s\",\"worker\":-1,\"status\":%d}\n", r.id.c_str(), st); }
+    }
+    fclose(out); return rc;
+  }
   // one child per system so that every system starts from a fresh registry
   for (auto& s : e1_systems()) {
     if (!O.only.empty() && s.name != O.only) continue;
